@@ -524,7 +524,7 @@ func c18Alias(c *Check) {
 			continue
 		}
 		if ix, ok := ast.Unparen(as.Lhs[0]).(*ast.IndexExpr); ok {
-			if fv := fieldOf(info, ix.X); fv != nil && fv.Name() == "OriginalRcpts" {
+			if fv := fieldOf(info, ix.X); fv != nil && objName(fv) == "OriginalRcpts" {
 				stores = append(stores, pt)
 				storeKey = append(storeKey, ix.Index)
 				storeVal = append(storeVal, as.Rhs[0])
